@@ -28,7 +28,7 @@ META = {
                   '+ raw-SELECT oracle after every step'),
     'level_text': ('Theorems C05_inv_reachable / C05_read_eq_db: in every state reachable by any history of library '
                    'operations (create, get, select refresh, read, setattr, set, syncUpdate, sync, expire, expireAll, '
-                   'destroySelf, pickle; any failures injected) every attribute read of a held live instance returns the '
+                   'destroySelf with its cascade=null / cascade=True dependents loop, pickle; any failures injected) every attribute read of a held live instance returns the '
                    'stored value (the pending one for lazy-dirty objects), for eager, lazy and cacheValues=False classes; '
                    'C05_oob_then_sync / C05_oob_then_expire: from ANY state, sync()/expire() make reads return the '
                    'stored value or raise.  The model is hand-written from main.py and compared with the real code on '
@@ -37,8 +37,8 @@ META = {
                    '(C04; the history says when get/select built a new instance) and the application does not write '
                    'through destroyed instances.  Trusted: Lean kernel, the harness, SQLite as the row store; the '
                    'sampling correspondence of the model.'),
-    'rule': ('case = one history (connection cache on/off, read mode A/B, ≤ 30 ops over 4 classes eager/lazy/uncached/'
-             'lazy+uncached, ids 1..5); distinct = distinct op sequences; non-trivial = history contains a write followed by '
+    'rule': ('case = one history (connection cache on/off, read mode A/B, ≤ 30 ops over 8 classes eager/lazy/uncached/'
+             'lazy+uncached + four classes with a ForeignKey to the eager one (cascade=null eager/lazy/uncached, cascade=True), ids 1..5); distinct = distinct op sequences; non-trivial = history contains a write followed by '
              'expire/sync/select/destroy or an injected failure'),
     'trusted': ['SQLite in-memory engine as the row store (raw SELECT through a second cursor is the oracle)',
                 'harness bookkeeping of which row a held instance stands for, and of pending lazy assignments'],
@@ -612,10 +612,10 @@ class Runner(object):
                         if not hd2.pend:
                             hd2.tainted = False        # refreshed from the select row
                         if CLASSES[k2][1]:
-                            if hd2.tainted:
-                                hd2.pend = dict((ATTRS[k2].index(nm), v) for nm, v in hd2.obj._SO_createValues.items())
-                            elif hd2.pend.get(0, rid) == rid:
-                                hd2.pend[0] = None     # row.set(fkID=None) on a lazy object: pending, not written
+                            # whether the library wrote NULL or left it pending on the lazy object (it does the
+                            # latter: row.set) is not this property's business: take its pending set as it is;
+                            # the read / flag / flush oracles then apply to it
+                            hd2.pend = dict((ATTRS[k2].index(nm), v) for nm, v in hd2.obj._SO_createValues.items())
                     continue
                 # the library built an instance of its own for this row
                 for h3 in self.others_on_row(k2, i):
@@ -627,7 +627,7 @@ class Runner(object):
                 if obj2 is not None:
                     self.held[hn] = Held(obj2, k2, i)
                     if CLASSES[k2][1]:
-                        self.held[hn].pend[0] = None
+                        self.held[hn].pend = dict((ATTRS[k2].index(nm), v) for nm, v in obj2._SO_createValues.items())
                 else:
                     dropafter.append(hn)
         for t in toks:
@@ -1017,7 +1017,7 @@ def drive(ctx, prop, weights, n_hist, max_ops, modes=('A', 'B')):
 def run(ctx):
     env(True)
     env(False)
-    n = ctx.budget(2500, 25000)
+    n = ctx.budget(2500, 15000)
     drive(ctx, 'C05', W_C05, n, 30 if ctx.tier == 'quick' and not ctx.deep else 60)
 
 
